@@ -70,7 +70,7 @@ CHECKS = {
                 note="Trusted: Redis stand-in, harness mini-session, phase control through gating of UMCTL PRECHECK/PRESWITCH/FINALSWITCH and SCAN. Hash-order dependent choices (bystander MOVED target) are accepted either way."),
     "C14": dict(engine="simnet", cat="model_checking", ref="3/C14",
                 technique="same state x encoding x limit x phase enumeration as C02, x NODES format version; CLUSTER NODES and CLUSTER SLOTS of every member proxy parsed and compared with each other and with routing probes",
-                text="For every case of the C02 enumeration and every live member proxy the real CLUSTER NODES (V1 and V2 format) and CLUSTER SLOTS replies are parsed: every covered slot appears under exactly one node line / one SLOTS entry, both commands give the same slot->address map with consistent node ids; for every probe slot the advertised node equals what routing does from that proxy (itself iff executed locally, else the MOVED target); migrating slots are advertised at the source in phase A and at the destination in C/D on the two involved proxies, at either of them on bystanders.",
+                text="For every case of the C02 enumeration and every live member proxy the real CLUSTER NODES (V1 and V2 format) and CLUSTER SLOTS replies are parsed: every covered slot appears under exactly one node line / one SLOTS entry, both commands give the same slot->address map with consistent node ids; for every probe slot the advertised node equals what routing does from that proxy (itself iff executed locally, else the MOVED target); migrating slots are advertised at the source in phase A and at the destination in C/D on the two involved proxies, at either of them on bystanders. Every migrating state is additionally walked A -> C -> D on the same proxies (topology and routing probed in each phase), so state kept between topology queries is exercised.",
                 note="Same trusted base as C02."),
     "C13": dict(engine="simnet", cat="fault_enumeration", ref="3/C13",
                 technique="enumeration of operation histories x crash point (restart from any prefix snapshot) x distribution of views held by proxies x reachability; the production recover_epoch path over loopback TCP responders; adoption replayed on real proxies with real coordinator sync rounds",
@@ -79,14 +79,14 @@ CHECKS = {
     "C03": dict(engine="simnet", cat="model_checking", ref="3/C03",
                 technique="delay-bounded exhaustive enumeration of message-level schedules (stateless DFS over a harness-owned network) of real proxies during a live migration, with a brute-force linearizability oracle over replies and final store contents",
                 text="Scenarios: 4->8 node scale-out, one focus migration between two real proxies (real broker, real coordinator rounds), two clients with 1-2 commands {GET,SET,DEL,INCR,EXISTS,EXPIRE,MSETNX,EVAL} on two keys that share a migration lock slot (plus one key outside the range) entering at the source, destination or a bystander proxy at different moments of the scan. Every proxy->proxy and proxy->Redis request waits at a gate owned by the explorer; all schedules with at most d deferrals (d=2 quick, 3 thorough; wide command-pair family d-1) are run to completion including the commit; each history (invocation/response steps, replies) together with the final contents of source and destination must admit a sequential explanation from the initial contents; keys of the range must be gone from the source.",
-                note="Bound: deferral span 16 serves; 1 ms timer steps only when nothing else is enabled. Trusted: the Redis stand-in (DUMP/RESTORE/BUSYKEY, EXISTS, scripts), real-time order by explorer step. The 2 clients x 2 keys alphabet is the whole data space explored."),
+                note="Bound: a deferral lasts 16 explorer steps; in the quick tier a request can be deferred only while something else is enabled, in the thorough tier also when it is alone (time then passes in 1 ms steps); 1 ms timer steps otherwise only when nothing else is enabled. Trusted: the Redis stand-in (DUMP/RESTORE/BUSYKEY, EXISTS, scripts), real-time order by explorer step. The 2 clients x 2 keys alphabet is the whole data space explored."),
     "C07": dict(engine="simnet", cat="model_checking", ref="3/C07",
                 technique="fault-plan enumeration (stateless DFS over global call indices) of real coordinator rounds against the real broker and real proxies on a harness-owned network, with invariant and convergence oracles",
                 text="Scripts (create cluster; scale-out with migration; migration source / destination proxy dies mid-migration; scale-in) run the real coordinator loops (metadata sync, migration-state sync, failure detection, failure handling) against the real in-memory broker and 6 real proxies. Every outgoing coordinator call (broker or proxy) passes one gate and gets a global index; all plans of <= d faults (d=1 quick, 2 thorough with the second fault within 30 calls) in the fault window are executed: request lost, reply lost after execution, duplicated, delayed and delivered stale, coordinator crash before the call, target proxy restarted empty, a second coordinator running a whole pass between two calls, the next admin operation applied between two calls. Oracles: accepted SETCLUSTER/SETREPL epochs strictly increase per proxy incarnation; GETEPOCH never decreases; every task committed at most once and a refused commit leaves the store unchanged; in the committing round the destination is updated before the source; after 4 fault-free passes every registered, non-failed, reachable proxy reports the broker's epoch and holds (UMCTL INFO, canonicalised) exactly what a fresh proxy fed from the broker holds; no finished migration stays uncommitted.",
                 note="Interleaving of two coordinators is at whole-pass granularity (a pass of B between any two calls of A), not call-by-call. Failure quorum 1. Trusted: Redis stand-in; migration data transfer itself is C03's subject."),
     "C19": dict(engine="simnet", cat="model_checking", ref="3/C19",
                 technique="enumeration of PTTL reply classes x the three transfer paths on complete real migrations between real proxies, with the source stand-in scripted; observation of the RESTORE ttl argument at the destination stand-in",
-                text="For each transfer path (background scan; on-demand pull triggered by a read at the destination proxy while the scan is held; push triggered by a deleting command => UMSYNC) and each PTTL reply class {-2,-1,0,1,2,999,2^31,2^63-1,2^63,'abc','','+5','-0'} a full migration (real broker, real coordinator sync, 4 real proxies) is run and the ttl argument of the RESTORE that reaches the destination is judged: -1 => 0, p>=1 => 1..p, 0 => >=1 (never the value RESTORE reads as persistent), -2 => no transfer, malformed => no panic; plus real TTL round trips (persistent, 400 ms, 5 s, 100 s) checked by PTTL at the destination.",
+                text="For each transfer path (background scan; on-demand pull triggered by a read at the destination proxy while the scan is held; push triggered by a deleting command => UMSYNC) and each PTTL reply class {-2,-1,0,1,2,999,2^31,2^63-1,2^63,'abc','','+5','-0'} a full migration (real broker, real coordinator sync, 4 real proxies) is run and the ttl argument of the RESTORE that reaches the destination is judged: -1 => 0, p>=1 => 1..p, 0 => >=1 (never the value RESTORE reads as persistent), -2 => no transfer, malformed => no panic; plus real TTL round trips (persistent, 400 ms, 5 s, 100 s) checked by PTTL at the destination, plus PTTL replies {-1,1,2,999} from a source whose PTTL/DUMP answers take 12 ms of real and of virtual time (longer than the key has left) on all three paths.",
                 note="Interleavings with client traffic are the subject of C03; here each case is one deterministic run. Trusted: Redis stand-in (RESTORE/PTTL semantics), phase control by holding SCAN."),
 }
 
